@@ -53,6 +53,8 @@ func checkC03(w *World, c *Check, tier string) {
 	c.floor("C03.R-cover", 300)
 	c.floor("C03.RW", 300)
 	c.floor("C03.flag", 20)
+	c.floor("C03.fresh", 15)
+	checkRegistryFresh(w, c, "C03.fresh")
 	checkFlagDiscipline(w, c, "C03.flag", nil)
 	checkGobObjectRecognition(w, c)
 	for _, s := range w.TaggedStructs() {
